@@ -369,8 +369,114 @@ def run_pingpong(req):
     return {"obs": obs, "stats": {"tasks": 1, "depth": depth}}
 
 
+def run_foreign_thread(req):
+    """A plain thread calls trio.from_thread.run(afn, trio_token=token): extract(thread) must continue from the
+    thread's frames into the Trio task serving the call.  Looked at from the Trio run that serves it, from a
+    plain (non-Trio) thread, and - with `two_runs` - from the thread of a second, unrelated Trio run."""
+    levels = []
+    out = {}
+    served = threading.Event()
+    release = threading.Event()
+    box = {}
+
+    async def served_fn():
+        levels.append(sys._getframe())
+        box["served_frame"] = sys._getframe()
+        served.set()
+        await trio.sleep_forever()
+
+    def foreign_fn():
+        levels.append(sys._getframe())
+        try:
+            trio.from_thread.run(served_fn, trio_token=box["token"])
+        except BaseException as ex:
+            box["foreign_exc"] = repr(ex)
+
+    def look(tag):
+        with warnings.catch_warnings(record=True) as w:
+            warnings.simplefilter("always")
+            try:
+                st = extract(box["thread"])
+            except BaseException as ex:
+                out[tag] = {"raised": repr(ex)}
+                return
+        out[tag] = {"st": st, "w": [str(x.message)[:150] for x in w]}
+
+    async def run_a():
+        box["token"] = trio.lowlevel.current_trio_token()
+        box["thread"] = threading.Thread(target=foreign_fn, daemon=True)
+        box["thread"].start()
+        while not served.is_set():
+            await trio.sleep(0.005)
+        await trio.testing.wait_all_tasks_blocked()
+        look("same_run")
+        box["a_ready"] = True
+        # keep run A alive while the other observers look
+        while not release.is_set():
+            await trio.sleep(0.005)
+        # let the served task finish so the foreign thread returns
+        for t in trio.lowlevel.current_root_task().child_nurseries[0].child_tasks:
+            pass
+        raise_cancel[0] = True
+
+    raise_cancel = [False]
+
+    async def main_a():
+        async with trio.open_nursery() as n:
+            n.start_soon(run_a)
+            while not raise_cancel[0]:
+                await trio.sleep(0.005)
+            # cancel everything, including the system task serving the foreign thread
+            trio.lowlevel.current_root_task().child_nurseries[0].cancel_scope.cancel()
+
+    ta = threading.Thread(target=lambda: _swallow(lambda: trio.run(main_a)), daemon=True)
+    ta.start()
+    import time
+    for _ in range(6000):
+        if box.get("a_ready"):
+            break
+        time.sleep(0.005)
+    else:
+        release.set()
+        return {"harness_error": "Trio run A did not get ready"}
+    look("plain_thread")
+
+    async def main_b():
+        look("other_trio_run")
+
+    try:
+        trio.run(main_b)
+    finally:
+        release.set()
+        ta.join(30)
+    obs = []
+    for tag, r in out.items():
+        if "raised" in r:
+            obs.append({"kind": "extract_raised", "tag": tag, "exc": r["raised"]})
+            continue
+        st = r["st"]
+        if st.error is not None:
+            obs.append({"kind": "error", "tag": tag, "exc": repr(st.error)})
+        mine = [f.pyframe for f in st.frames if f.filename == HERE and f.funcname in ("foreign_fn", "served_fn")]
+        if mine != levels:
+            obs.append({"kind": "foreign_thread_does_not_continue_into_serving_task", "tag": tag,
+                        "got": [f.f_code.co_name for f in mine], "all": [[f.funcname, f.hide] for f in st.frames]})
+        if r["w"]:
+            obs.append({"kind": "warning", "tag": tag, "msgs": r["w"]})
+    return {"obs": obs[:6], "stats": {"tasks": len(out), "depth": 1}}
+
+
+def _swallow(fn):
+    try:
+        fn()
+    except BaseException:
+        pass
+
+
 def handle(req):
     op = req["op"]
+    if op == "triotree.foreign":
+        return run_foreign_thread(req)
     if op == "triotree.tree":
         return run_tree(req)
     if op == "triotree.pingpong":
